@@ -135,6 +135,50 @@ EXTRA = {
          "Also decided: no package-level variable of the library holds an object with self-mutating methods (a shared feature set, builder or cache), one exemption with its reason."),
 }
 
+# second round of the seeded-change campaign: id -> (technique addition, level-text addition)
+EXTRA2 = {
+ "C01": ("field-write summaries over the call graph for the lost-update rule (a read-modify-write of a field with a call in between that writes the same field), a scan for in-place sorts of schema slices, the copy-origin rule extended to the node that is entered after insertion, and the return-shape rule for own-prefixed names",
+         "Also decided: a merged list is not written back from a value read before a nested merge; collections kept in textual order are never sorted in place; the expansion resolves the copy it inserted, not the template; a name with the module's own prefix is looked up locally; every refine property is handed to the Builder with the target as it is."),
+ "C02": ("visited-guard rule (the early success return depends on the visited table alone), append-aliasing rule, own-prefix return-shape rule",
+         "Also decided: compileImport's early return cannot skip modules it never handled; an own-prefixed typedef reference is resolved in lexical scope."),
+ "C03": ("innermost-condition rule for the conflict error, plus the XML list-entry and default-materialisation rules of C19/C04 reported here",
+         "Also decided: in the insert case an existing node is a conflict with no exemption for some node kind; an XML edit source hands out every entry of a list; defaults are materialised for every leaf kind that can have one."),
+ "C04": ("return-shape rule for the JSON reader's Child callback on the found side, and C09's chosen-case iterator rule reported here",
+         "Also decided: a member present in the JSON document is never reported as absent (an empty object is an existing container); nested choices are iterated through their chosen case only."),
+ "C05": ("dominance rule for list values in checkRange (Range.CheckValue only on the not-a-list side, elements walked), a coupling rule between Type.mixin's pattern merge and the checker's acceptance mode, and the post-constraint must-pass-through rule",
+         "Also decided: each element of a numeric leaf-list is checked on its own; the typedef's patterns are never merged into a list the checker reads disjunctively."),
+ "C06": ("first-argument rule for resolver.refine, flow rule from Builder string parameters to schema fields through slicing/trimming helpers, constant-use rule for the block-comment terminator",
+         "Also decided: the Builder stores its (already decoded) string arguments verbatim; a refine's property is not dropped for some node kinds; the block-comment end is matched as the two-character sequence at a position."),
+ "C07": ("must-pass-through rule for the field post-constraints in Selection.get/set, AST rule for a break that leaves only a switch inside a scanning loop, append-aliasing rule over the path-expression parser, branch-existence rule for a leading group, and a no-state-before-navigation-guard rule",
+         "Also decided: no successful return of get/set skips the post-constraints (with-defaults=trim sees filled-in defaults); an unbalanced ')' stops the scan of a selector; the paths a group expands into do not share an array and a leading group is kept; a counting filter does not count navigation steps."),
+ "C08": ("self-derivation rule for the cursor of the ../ loop, may-be-nil rule for the navigation target, no-state-before-guard rule, and a verbatim rule for key text",
+         "Also decided: each ../ climbs from where the previous one arrived; decoded key text reaches the value constructor unchanged; stateful filters exempt navigation before touching their state."),
+ "C09": ("branch-existence rule for nested choices in nodeutil.Node.exists and a literal-shape rule for Selection.ClearField",
+         "Also decided: the presence test looks through a member that is itself a choice; ClearField sends exactly one Clear write with no value."),
+ "C10": ("C19's no-lossy-text rule over the XML reader reported here",
+         "Also decided: the text of XML string leaves and leaf-list entries reaches the conversion as written."),
+ "C11": ("constant-verdict rule for checkFeature, side-of-comparison rule for deviate delete",
+         "Also decided: several if-feature statements on one definition are a conjunction; deviate delete clears units/default only where its argument equals the target's value."),
+ "C12": ("store rule for the fork's parent in Selection.Split, every-path rule for endEdit inside the deferred function, and an error-tested-before-next-call rule for the Field callback in get/set",
+         "Also decided: the other side of an edit has no parent chain to notify; endEdit runs also when the edit failed; a callback error cannot be replaced by a later call's result."),
+ "C13": ("guard-backing rules for the triage reasons: format equality before Compare in resolveOperator, CheckWhen moving to the parent of a leaf selection, Selection.Set rejecting nil, isKeyValid looking at every element and being consulted by the reflect list nodes, the ../ loop testing for a parent, resolvePath testing its next step, handler literals storing their node, DoGetChild testing the probe's missing selection",
+         "Also decided: the conditions under which the triaged assertion and dereference sites are safe are themselves checked; ten request-reachable crashes found this way were repaired."),
+ "C14": ("grammar-context rule (the statements a keyword can occur in, computed from the productions, against the triage reasons that rely on it), worklist guard rule for fillInRecursiveDefs, every-base-compiled and remembered-as-asked rules for the identity and import cycle guards, lexer-position bounds rule, several-defaults guard",
+         "Also decided: triage reasons of the form 'occurs only inside …' hold in the grammar; the placeholder worklist cannot re-queue a pair; cycle guards see every edge; the lexer position leaves the text only through next() or a matched prefix."),
+ "C15": ("slice-bound rule (a computed upper bound is compared with the length by a dominating test on that same value), identityref prefix control-dependence rule",
+         "Also decided: indentation slices are bounded by what they slice; an identityref value's module prefix depends on the modules alone, not on a writer option."),
+ "C16": ("dominance rule for the float parse of a literal, C07's registry rules reported here",
+         "Also decided: whole-number literals are parsed as integers; one selection's where/filter cannot replace a sibling's."),
+ "C17": ("C18's cache rule for the sorted key index reported here",
+         "Also decided: the sorted key index is rebuilt after every change of the slice."),
+ "C18": ("must-store rule for the list handler's slice after append/delete, a scan for partial struct index paths",
+         "Also decided: the slice handler works on the slice it last produced; struct fields are addressed by their full index path."),
+ "C19": ("scan for stores to the decoder's Strict/AutoClose/Entity, constant-start rule for the key lookup in XmlNode.Next, case rule for the carriage return in the patched encoder",
+         "Also decided: the reader decodes strictly; each key leaf is searched among all children of the entry; a carriage return is written as a character reference."),
+ "C20": ("the in-place-sort scan over node and nodeutil",
+         "Also decided: no request sorts a slice a schema accessor handed out."),
+}
+
 NOT_YET = "check not built yet in this session; see DESIGN.md for the planned static clauses"
 NOT_APPLICABLE = {}
 
@@ -147,6 +191,8 @@ def main():
             tech, text, note, ref = CLAIMED[pid]
             if pid in EXTRA:
                 tech, text = tech + "; " + EXTRA[pid][0], text + " " + EXTRA[pid][1]
+            if pid in EXTRA2:
+                tech, text = tech + "; " + EXTRA2[pid][0], text + " " + EXTRA2[pid][1]
             checks.append({
                 "property_id": pid,
                 "quick_cmd": "./check %s quick" % pid,
